@@ -52,6 +52,8 @@ BINOPS = {
     ast.Add: ("__add__", "__radd__"), ast.Sub: ("__sub__", "__rsub__"), ast.Mult: ("__mul__", "__rmul__"),
     ast.Div: ("__truediv__", "__rtruediv__"), ast.FloorDiv: ("__floordiv__", "__rfloordiv__"),
     ast.Mod: ("__mod__", "__rmod__"), ast.Pow: ("__pow__", "__rpow__"), ast.MatMult: ("__matmul__", "__rmatmul__"),
+    ast.BitOr: ("__or__", "__ror__"), ast.BitAnd: ("__and__", "__rand__"), ast.BitXor: ("__xor__", "__rxor__"),
+    ast.LShift: ("__lshift__", "__rlshift__"), ast.RShift: ("__rshift__", "__rrshift__"),
 }
 UNOPS = {ast.USub: "__neg__", ast.UAdd: "__pos__", ast.Invert: "__invert__"}
 
@@ -1265,6 +1267,17 @@ class Frame:
         if isinstance(vn, ast.BinOp):
             return NUM
         if isinstance(vn, ast.Call):
+            # a module-level constant computed by a function of the same module from literals / other constants
+            # (FLOAT_EPS = _eps_for(SIG_FIGURES)): the result type of that function on the argument types
+            if isinstance(vn.func, ast.Name) and not vn.keywords and vn.func.id in mod.functions:
+                args = []
+                for a in vn.args:
+                    if isinstance(a, ast.Name) and a.id in mod.assigns and len(mod.assigns[a.id]) >= 1:
+                        args.append(self._module_value(mod, mod.assigns[a.id][-1]))
+                    else:
+                        args.append(self._module_value(mod, a))
+                if all(a and not any(isinstance(t, tuple) and t[0] == "Unknown" for t in a) for a in args):
+                    return self.eng.call_split(mod.functions[vn.func.id], args)
             return EXT
         if isinstance(vn, (ast.Tuple, ast.List)):
             el = BOT
@@ -1685,6 +1698,13 @@ class Frame:
             for a in args:
                 out |= a
             return out
+        if name == "next":
+            if args:
+                out = self.iter_elems(args[0], e)
+                for a in args[1:]:
+                    out |= a  # the default
+                return out
+            return unknown("builtin next")
         if name == "sum":
             if args:
                 el = self.iter_elems(args[0], e)
